@@ -13,9 +13,9 @@ cargo test --workspace --offline --no-fail-fast 2>&1 | grep -E "^test result|FAI
 mv /tmp/seed_$1/aside/$(basename $DEMOFILE) "$DEMOFILE"
 echo "### demo with change (must fail)" >> $LOG
 cargo test -p $CRATE --offline --test $DEMO 2>&1 | grep -E "^test |^test result" >> $LOG
-git stash -q
+git diff > /tmp/seed_$1/current_change.diff; git checkout -q -- .
 echo "### demo without change (must pass)" >> $LOG
 cargo test -p $CRATE --offline --test $DEMO 2>&1 | grep -E "^test |^test result" >> $LOG
-git stash pop -q
+git apply /tmp/seed_$1/current_change.diff
 rm -rf $WT/target
 echo "### done" >> $LOG
